@@ -47,7 +47,7 @@ theorem erase_of_lookup_none {m : AMap κ ν} {k : κ} (h : lookup m k = none) :
     by_cases hk : k' = k
     · simp [lookup, hk] at h
     · simp only [lookup, hk, ↓reduceIte] at h
-      simp only [erase, hk, ↓reduceIte, ih h]
+      simp only [erase, hk, ↓reduceIte]; exact congrArg _ (ih h)
 
 theorem mem_of_lookup {m : AMap κ ν} {k : κ} {v : ν} (h : lookup m k = some v) : (k, v) ∈ m.toList := by
   induction m with
@@ -55,7 +55,7 @@ theorem mem_of_lookup {m : AMap κ ν} {k : κ} {v : ν} (h : lookup m k = some 
   | cons p rest ih =>
     obtain ⟨k', v'⟩ := p
     by_cases hk : k' = k
-    · simp only [lookup, hk, Option.some.injEq] at h
+    · simp only [lookup, hk, ↓reduceIte, Option.some.injEq] at h
       subst hk; subst h; exact List.mem_cons_self
     · simp only [lookup, hk, ↓reduceIte] at h
       exact List.mem_cons_of_mem _ (ih h)
@@ -80,7 +80,7 @@ theorem sum_erase {m : AMap κ Int} {k : κ} {c : Int} (hn : NodupKeys m) (h : l
     obtain ⟨k', v⟩ := p
     have hc : k' ∉ keys rest ∧ (keys rest).Nodup := by simpa [NodupKeys, keys] using hn
     by_cases hk : k' = k
-    · simp only [lookup, hk, Option.some.injEq] at h
+    · simp only [lookup, hk, ↓reduceIte, Option.some.injEq] at h
       subst h
       have hnone : lookup rest k = none := lookup_none_of_not_mem_keys (hk ▸ hc.1)
       simp only [erase, hk, ↓reduceIte, erase_of_lookup_none hnone, sum]; omega
@@ -100,7 +100,9 @@ theorem size_erase {m : AMap κ ν} {k : κ} {c : ν} (hn : NodupKeys m) (h : lo
     · simp only [lookup, hk, ↓reduceIte] at h
       have := ih hc.2 h
       simp only [erase, hk, ↓reduceIte]
-      simp only [size, List.length_cons] at this ⊢; omega
+      show (erase rest k).length + 1 + 1 = rest.length + 1
+      have : (erase rest k).length + 1 = rest.length := this
+      omega
 
 theorem sum_insert_new {m : AMap κ Int} {k : κ} (c : Int) (h : lookup m k = none) :
     sum (insert m k c) = sum m + c := by
@@ -117,7 +119,8 @@ theorem size_insert_new {m : AMap κ ν} {k : κ} (c : ν) (h : lookup m k = non
 theorem size_insert_old {m : AMap κ ν} {k : κ} {prev : ν} (c : ν) (hn : NodupKeys m)
     (h : lookup m k = some prev) : size (insert m k c) = size m := by
   have := size_erase hn h
-  unfold insert; simp only [size, List.length_cons] at this ⊢; omega
+  show (erase m k).length + 1 = m.length
+  exact this
 
 theorem nonneg_erase {m : AMap κ Int} (h : Nonneg m) (k : κ) : Nonneg (erase m k) :=
   fun p hp => h p (mem_erase hp)
@@ -139,7 +142,8 @@ theorem sum_nonneg {m : AMap κ Int} (h : Nonneg m) : 0 ≤ sum m := by
     obtain ⟨k, v⟩ := p
     have h1 : 0 ≤ v := h (k, v) List.mem_cons_self
     have h2 : 0 ≤ sum rest := ih (fun q hq => h q (List.mem_cons_of_mem _ hq))
-    rw [sum_cons]; omega
+    show 0 ≤ v + sum rest
+    omega
 
 omit [DecidableEq κ] in
 theorem size_eq_zero {m : AMap κ ν} (h : size m = 0) : m = empty := by
